@@ -297,6 +297,14 @@ func (C11) Generate(c *Ctx, r *Rand, index int) *Scenario {
 		}
 		sc.TmpOther = c.W.DiskRoot != "" && rs.Chance(1, 2)
 	}
+	if fi.Name == "yaml" && c.W.Strace != "" && rs.Chance(1, 40) {
+		// split output into files while the process runs out of descriptors (EMFILE from some open on)
+		argv = append([]string{"-s=.id"}, argv...)
+		sc.Strace = "openat:error=EMFILE:when=" + strconv.Itoa(rs.Range(3, 14)) + "+"
+		sc.NoHooks = true // the hook layer opens files of its own
+		sc.Plan = Plan{}
+		sc.WatchdogS = 8
+	}
 	sc.Argv = argv
 	sc.Meta["target"] = "expr.yq" // never dropped as a whole by the shrinker
 	// delivery and I/O faults
@@ -311,7 +319,7 @@ func (C11) Generate(c *Ctx, r *Rand, index int) *Scenario {
 		sc.Plan.Readers = []ReaderPlan{rp}
 	}
 	if rf.Chance(1, 10) {
-		sc.Plan.Writers = []WriterPlan{{Stream: "out", FailAt: int64(rf.Intn(200)), Errno: Pick(rf, []string{"ENOSPC", "EIO"}), KillAt: -1}}
+		sc.Plan.Writers = []WriterPlan{{Stream: "out", FailAt: int64(rf.Intn(200)), Errno: Pick(rf, []string{"ENOSPC", "EIO", "EAGAIN", "EINTR", "EPIPE", "EBADF", "EFBIG"}), KillAt: -1}}
 	}
 	return sc
 }
@@ -376,7 +384,7 @@ func PanicSite(stderr string) (class, site string) {
 			}
 			continue
 		}
-		if strings.HasPrefix(line, "\t") || strings.HasPrefix(line, "goroutine ") {
+		if strings.HasPrefix(line, "\t") || strings.HasPrefix(line, "goroutine ") || strings.HasPrefix(line, "created by ") || strings.HasPrefix(line, "runtime: ") || strings.HasPrefix(line, "fatal error: ") {
 			continue
 		}
 		fn := line
